@@ -163,6 +163,22 @@ impl<'a, H: HashChain> InMemoryHssSignature<'a, H> {
 
         let signature = InMemoryLmsSignature::<'a, H>::new(data.get(index..)?)?;
 
+        // The signature ends with the LMS signature of the message; no bytes may follow.
+        let signature_size = lms_signature_length(
+            signature
+                .lmots_signature
+                .lmots_parameter
+                .get_hash_function_output_size(),
+            signature
+                .lmots_signature
+                .lmots_parameter
+                .get_num_winternitz_chains() as usize,
+            signature.lms_parameter.get_tree_height() as usize,
+        );
+        if index + signature_size != data.len() {
+            return None;
+        }
+
         Some(Self {
             level,
             signed_public_keys,
